@@ -296,6 +296,7 @@ def handleLine (toks : List String) : String :=
   -- (`connStep_static`, `C08_per_connection`); blocking itself is runtime behaviour outside the model
   | "stallw" :: _ => "witness-served"
   | "massdisc" :: _ => "witness-served"
+  | "cfgstorm" :: _ => "witness-served"
   -- a crash is contained in its connection (`C07_panic_is_contained`, `C08_per_connection`)
   | "panicw" :: _ => "witness-served"
   -- a reply is one write of one complete frame (`C04_every_write_is_a_frame`); how long the transport takes to
